@@ -42,7 +42,7 @@ ASSUMPTIONS = [
 ]
 
 DRIVER = os.path.join(os.path.dirname(os.path.dirname(os.path.abspath(__file__))), "c20_driver.py")
-_RANDOM_ID = re.compile(r"_(?:cond|filt)_[a-z]{10}")
+_RANDOM_ID = re.compile(r"_(?:cond|filt)_(?!undefined_)[a-z]{6,}")  # the drawn part, however long it is
 _ADDR = re.compile(r"0x[0-9a-fA-F]{8,}")
 
 
